@@ -410,12 +410,16 @@ def obligations(tier):
                               wall_s=170 if tier == 'quick' else 1200, query_timeout_ms=20000))
     seps = [25.0, 997.5] if tier == 'quick' else [25.0, 27.5, 100.0, 997.5, 1000.0, 5000.0, 9950.0]
     for name in (['tri_ASP'] if tier == 'quick' else ['tri_ASP', 'pair_GLU_ARG_TYR', 'pair_ASP_ARG', 'tri_HIS']):
-        for lo in seps:
-            obs.append(Obligation('O3-two-copies[%s,D>=%g]' % (name, lo), mk_two_copies(name, lo, 0.8 if tier == 'quick' else 2.509),
+        wins = [(lo, 0.8) for lo in seps]
+        if tier == 'thorough':
+            # the whole cell period 2.509 in three windows (one worker each); the larger structures at three separations only
+            wins = [(lo + j * 0.8364, 0.8364) for lo in (seps if name.startswith('tri_') else [25.0, 997.5, 9950.0]) for j in range(3)]
+        for lo, width in wins:
+            obs.append(Obligation('O3-two-copies[%s,D>=%g]' % (name, lo), mk_two_copies(name, lo, width),
                                   code=['propka/run.py:single (whole pipeline)', 'propka/calculations.py:get_smallest_distance', D + 'set_backbone_determinants', E + 'radial_volume_desolvation'],
-                                  bounds='%s (with the program\'s own hydrogens, keep-protons) plus a copy in chain B shifted along x so that the gap between nearest atoms is a real number in [%g, %g]' % (name, lo, lo + (0.8 if tier == 'quick' else 2.509)),
+                                  bounds='%s (with the program\'s own hydrogens, keep-protons) plus a copy in chain B shifted along x so that the gap between nearest atoms is a real number in [%g, %g]' % (name, lo, lo + width),
                                   claim_doc='no exception; every group of either copy has the desolvation, pKa and determinants of the single-copy run',
-                                  max_paths=5000, wall_s=170 if tier == 'quick' else 1200, shards=6))
+                                  max_paths=5000, wall_s=170 if tier == 'quick' else 1500, shards=6 if tier == 'quick' else 1))
     for q in ((-1, -1), (-1, 1)):
         obs.append(Obligation('O2-iterative-clusters-two-ligand-copies[%+d%+d]' % q, mk_iterative(q, q, hetero=True), code=obs[-1].code if obs else [],
                               bounds='two copies of one ligand in one chain (same atom names, different residue numbers: equal labels), one interaction each, all values symbolic',
